@@ -294,6 +294,21 @@ func ruleC13_3(c *Ctx) {
 				}
 			}
 		}
+		// the same with the "target is a directory" flag handed back by a transparent helper (Stat of the evaluated link)
+		if !okFollow {
+			for _, b := range cb.Blocks {
+				r, isRet := b.Instrs[len(b.Instrs)-1].(*ssa.Return)
+				if !isRet || !isNilConst(r.Results[0]) || !c.condAtFree(cb, "followSymlinkDirs", false, b) {
+					continue
+				}
+				for _, ft := range c.factsAt(b) {
+					o := org(ft.v)
+					if ft.val && strings.HasPrefix(o, "os.FileInfo.IsDir(os.Stat(") && !strings.Contains(o, "IsDir(p1)") {
+						okFollow = !reachesBlock(b, rec.Block())
+					}
+				}
+			}
+		}
 	}
 	c.check(okFollow, R, fn, "(iii) a symlinked directory is followed only on request", cb.Pos(), "target.IsDir() && !followSymlinkDirs => return nil before the recursion", "directory symlinks are followed (or skipped) regardless of followSymlinkDirs")
 	// (iv) cycle error
